@@ -441,6 +441,10 @@ impl<G: Getter<Quantity, E> + ?Sized, E: Copy + Debug> Updatable<E> for Derivati
             Some(some) => some,
             None => {
                 self.prev_output = Some(output);
+                //An error cached from an earlier update is no longer current once a sample has arrived.
+                if self.value.is_err() {
+                    self.value = Ok(None);
+                }
                 return Ok(());
             }
         };
@@ -497,6 +501,10 @@ impl<G: Getter<Quantity, E> + ?Sized, E: Copy + Debug> Updatable<E> for Integral
             Some(some) => some,
             None => {
                 self.prev_output = Some(output);
+                //An error cached from an earlier update is no longer current once a sample has arrived.
+                if self.value.is_err() {
+                    self.value = Ok(None);
+                }
                 return Ok(());
             }
         };
